@@ -259,6 +259,25 @@ def own_keys(changed, backend, rid):
     return bad
 
 
+def oracle_denials(hists):
+    """A refused agent call must not tell its caller whether the backend ID exists: the 401 texts given to callers that have
+    an identity (calls without injected faults) must not depend on the backend named."""
+    res = []
+    texts = collections.defaultdict(dict)   # kind -> text -> example
+    for h in hists:
+        for row in h:
+            op, obs = row["op"], row["obs"]
+            if op["op"] in ("alist", "afetch", "arespond") and op.get("ident") and op.get("backend") and obs.get("denial"):
+                texts[op["op"]].setdefault(obs["denial"], {"backend": op["backend"], "backend_registered_for": obs.get("owner") or None, "caller": op["ident"], "history": _base(h, row)})
+    for kind, ts in texts.items():
+        if len(ts) > 1:
+            res.append(("unauthorised-agent-call-leaks:denial-text-depends-on-backend", "refused %s calls were answered with %d different texts (%s): the refusal tells whether the backend ID exists" % (
+                kind, len(ts), "; ".join("%r for backend %r (registered: %s)" % (t, e["backend"], bool(e["backend_registered_for"])) for t, e in ts.items())[:400]),
+                {"driver": "harness/cmd/appengine: agent calls by a caller with a valid identity that is not the backend's", "kind": kind, "texts": {t: {k: v for k, v in e.items() if k != "history"} for t, e in ts.items()},
+                 "example": list(ts.values())[-1]["history"]}))
+    return res
+
+
 def oracle_c17(h):
     res = []
     calls = {}
